@@ -684,9 +684,10 @@ class _Lower:
                 c["blocks"][i] = {"cleanup": False, "stmts": [], "term": {"t": "unreachable", "sp": sp}, "lowered": True}
                 self._register(dest, cont, new_arms)
                 return True
-            # `x.ok_or(e)?` / `.map_err(f)?` on a plain value: the rules read this spelling directly (discharge.unq);
-            # rewriting it would only put a merge in front of the `?`
-            if n.rsplit("::", 1)[-1] in ("ok_or", "ok_or_else", "map_err") and self._feeds_try(cont, dest):
+            # `x.ok_or(e)?` / `.map_err(f)?` on a plain value (also the `match` that try_stream! makes of `?`): the
+            # rules read this spelling directly (discharge.unq); rewriting it would only put a merge in front of
+            # the test that follows
+            if n.rsplit("::", 1)[-1] in ("ok_or", "ok_or_else", "map_err"):
                 raise _NoLower()
             # ---- plain: switch on the receiver
             new_arms = []
@@ -833,3 +834,84 @@ def _succs(blk):
         if isinstance(t.get(k), int):
             out.append(t[k])
     return out
+
+
+# ---------------------------------------------------------------- jump threading on known constants
+class _Raw:
+    """just enough of mirlite.Body for bool_transfer / bool_switch_target"""
+    def __init__(self, raw):
+        self.blocks = raw["blocks"]
+        self.locals = raw["locals"]
+
+
+PURE_CHAIN_CALLS = ("core::ops::try_trait::Try::branch", "core::ops::try_trait::FromResidual::from_residual")
+
+
+def thread_known_switches(bodies, max_chain=5, max_rounds=6):
+    """Tail duplication driven by constant tracking.  When the statements of a block P decide a switch a few
+    blocks further on (`form = Short(..)` in P, `match form` after the merge), the straight-line blocks between
+    P and that switch are copied for P and the copy jumps straight to the decided arm:
+
+        P: x = A(..); goto M      M: y = move x; goto S      S: d = discriminant(y); switch d [A: a, B: b]
+     => P: x = A(..); goto M'     M': y = move x; goto S'    S': d = discriminant(y); goto a
+
+    The program is unchanged (only infeasible edges disappear), but in arm `a` the value `(y as A).0` now has
+    one reaching definition, so every engine sees which value it is.  Second-representation only."""
+    from mirlite import bool_transfer, bool_switch_target
+    done = {}
+    for raw in bodies:
+        if "mock_inner" in raw["id"] or raw.get("absorbed"):
+            continue
+        body = _Raw(raw)
+        blocks = raw["blocks"]
+        n_thr = 0
+        for _ in range(max_rounds):
+            changed = False
+            for p in range(len(blocks)):
+                t = blocks[p]["term"]
+                if t["t"] not in ("goto", "drop", "falseedge") or not isinstance(t.get("to"), int):
+                    continue
+                if not any(s.get("s") == "assign" and s["rv"]["r"] in ("agg", "use") for s in blocks[p]["stmts"]):
+                    continue
+                known = bool_transfer(body, p, {})
+                if not known:
+                    continue
+                chain = []
+                cur = t["to"]
+                decided = None
+                while len(chain) < max_chain and cur is not None and cur not in chain and cur != p:
+                    ct = blocks[cur]["term"]
+                    if blocks[cur].get("cleanup"):
+                        break
+                    known = bool_transfer(body, cur, known)
+                    chain.append(cur)
+                    if ct["t"] == "switch":
+                        decided = bool_switch_target(body, cur, known)
+                        break
+                    if ct["t"] in ("goto", "drop", "falseedge") and isinstance(ct.get("to"), int):
+                        cur = ct["to"]
+                        continue
+                    if ct["t"] == "call" and (ct.get("f") or {}).get("n") in PURE_CHAIN_CALLS and isinstance(ct.get("to"), int):
+                        cur = ct["to"]
+                        continue
+                    break
+                if decided is None:
+                    continue
+                # copy the chain for P
+                base = len(blocks)
+                for k, c in enumerate(chain):
+                    nb = copy.deepcopy(blocks[c])
+                    nb["threaded_from"] = c
+                    if k + 1 < len(chain):
+                        nb["term"]["to"] = base + k + 1
+                    else:
+                        nb["term"] = {"t": "goto", "to": decided, "sp": nb["term"].get("sp"), "threaded": True}
+                    blocks.append(nb)
+                t["to"] = base
+                n_thr += 1
+                changed = True
+            if not changed:
+                break
+        if n_thr:
+            done[raw["id"]] = n_thr
+    return done
